@@ -59,8 +59,9 @@ def actions_of(kind, nA):
 class FmtLearner:
     """Writes its intended answers in one format / layout.  Intention for the row with context id c:
     action index c mod nA, probability PROBS[c mod 3], pmf BASE rotated by c mod nA, kwargs {'k': c}."""
-    def __init__(self, fmt, kw, layout, nA, oh=False):
+    def __init__(self, fmt, kw, layout, nA, oh=False, scale=1):
         self.fmt = fmt; self.kw = kw; self.layout = layout; self.nA = nA; self.learned = []; self.calls = 0; self.oh = oh
+        self.scale = scale   # PMFs as learners really produce them (rounded, float32): the entries sum to 1 only within the documented tolerance
 
     @property
     def params(self): return {"family": "fmt"}
@@ -71,7 +72,7 @@ class FmtLearner:
         elif base == "AP": v = (actions[j], PROBS[c % 3])
         else:
             w = BASE[self.nA]; r = c % self.nA
-            v = [w[(i + r) % self.nA] / 4 for i in range(self.nA)]
+            v = [w[(i + r) % self.nA] / 4 * self.scale for i in range(self.nA)]
             if self.oh: v = [1 if i == r else 0 for i in range(self.nA)]      # all mass on one action, written with ints
         if self.fmt.endswith("*"): v = {{"AX": "action", "AP": "action_prob", "PM": "pmf"}[base]: v}
         return v
@@ -139,6 +140,15 @@ def run(ctx):
                 if bad:
                     sig, what = bad
                     ctx.violation(sig, "%s   case=%s kind=%s action-sets=%s" % (what, json.dumps(cs, sort_keys=True), kind, "A,B,A" if vary else "A,A,A"), dict(case=cs, kind=kind, vary=vary, expected=c["expected"]))
+            # the PMF a learner states is reported as stated, also when its entries sum to 1 only within the tolerance (the draw is by
+            # share of the total, which for a common factor is the draw of the exact PMF)
+            if fmt.rstrip("*") == "PM" and not cs.get("oh") and nA > 1 and kind in ("str", "int1x"):
+                for scale in (0.9997, 1.0003):
+                    ctx.case(json.dumps([cs, kind, scale], sort_keys=True))
+                    bad = one(SafeLearner, cs, c["expected"], kind, False, scale)
+                    if bad:
+                        sig, what = bad
+                        ctx.violation(sig + ":inexact-sum", "%s   case=%s kind=%s PMF entries times %s" % (what, json.dumps(cs, sort_keys=True), kind, scale), dict(case=cs, kind=kind, scale=scale, expected=c["expected"]))
     # ---- the same meaning one level up: the seed an evaluator is given (or, without one, the experiment's) is the seed of the draw
     from coba.evaluators import SequentialCB
     for c in cases:
@@ -186,10 +196,10 @@ def through_evaluator(SequentialCB, CobaContext, cs, expected, how):
     return None
 
 
-def one(SafeLearner, cs, expected, kind, vary=False):
+def one(SafeLearner, cs, expected, kind, vary=False, scale=1):
     fmt, kw, layout, nA, bs, seed = cs["fmt"], cs["kw"], cs["layout"], cs["nA"], cs["bsize"], cs["seed"]
     acts_a = actions_of(kind, nA); acts_b = alt_actions_of(kind, nA)
-    lrn = FmtLearner(fmt, kw, layout, nA, cs.get("oh", False))
+    lrn = FmtLearner(fmt, kw, layout, nA, cs.get("oh", False), scale)
     sl = SafeLearner(lrn, seed)
     exp_by_call = {}
     for e in expected: exp_by_call.setdefault(e["call"], []).append(e)
@@ -208,7 +218,7 @@ def one(SafeLearner, cs, expected, kind, vary=False):
             return ("%s:%s:raises:%s" % (fmt, layout, type(e).__name__), "call %d raised %s: %s" % (call, type(e).__name__, str(e)[:150]))
         if len(A) != len(rows): return ("%s:%s:batch-size" % (fmt, layout), "call %d returned %d actions for %d rows" % (call, len(A), len(rows)))
         for i, e in enumerate(rows):
-            want_a = acts[e["a"]]; want_p = None if e["p"] == -1 else e["p"] / 1000; want_k = {} if e["k"] == -1 else KW(e["k"])
+            want_a = acts[e["a"]]; want_p = None if e["p"] == -1 else e["p"] / 1000 * scale; want_k = {} if e["k"] == -1 else KW(e["k"])
             if not any(A[i] == x for x in acts): return ("%s:%s:not-an-offered-action" % (fmt, layout), "call %d row %d: %r is not one of the offered actions %r" % (call, i + 1, A[i], acts))
             if A[i] != want_a: return ("%s:%s:wrong-action" % (fmt, layout), "call %d row %d: action %r, the learner named (or the seed draws) %r" % (call, i + 1, A[i], want_a))
             if (P[i] is None) != (want_p is None) or (want_p is not None and abs(P[i] - want_p) > 1e-12):
